@@ -311,9 +311,12 @@ def _paths(case, j, ctx):
             if ref == "ch1" and not bool(d.min() < 0):
                 pp = os.path.join(ctx.tmp, "c09p.fil")
                 sigfile.write_fil(pp, pulse.T, 32, fch1=fch1, foff=foff, tsamp=tsamp)
-                ts = FilReader(pp).dedisperse(dm, gulp=max(1, n // 2), quiet=True, description="v").data
-                if ts[t0] != nch or np.count_nonzero(ts) != 1:
-                    _viol(ctx, "pulse-stream", regime, f"streamed dedispersion: peak {ts.max()} at {int(np.argmax(ts))}, expected {nch} at {t0}", one)
+                tsr = FilReader(pp).dedisperse(dm, gulp=max(1, n // 2), quiet=True, description="v")
+                ts = tsr.data
+                # the series declares its own time origin (first sample = input sample t_off)
+                t_off = int(round((tsr.header.tstart - 58000.0) * 86400.0 / tsamp))
+                if not (0 <= t0 - t_off < ts.size) or ts[t0 - t_off] != nch or np.count_nonzero(ts) != 1:
+                    _viol(ctx, "pulse-stream", regime, f"streamed dedispersion: peak {ts.max()} at {int(np.argmax(ts))} (+ origin {t_off}), expected {nch} at {t0}", one)
         except Exception as exc:  # noqa: BLE001
             _viol(ctx, f"pulse-raised:{type(exc).__name__}@{exc_site(exc)}", regime, fmt_exc(exc), one)
     ctx.evaluated(); ctx.count("path:inverse")
